@@ -1012,9 +1012,15 @@ def check_c16(tier, seed):
                       "table": table, "records": [[r.prefix, r.uri_prefix, r.prefix_synonyms, r.uri_prefix_synonyms] for r in c.records],
                       "delimiter": c.delimiter, "out": out})
 
-    def pd_op(ci, kind, amb, s, p, column_values, target):
+    def pd_op(ci, kind, amb, s, p, column_values, target, labels="str"):
         c = conv_objs[ci - 1]
         df = pd.DataFrame({"c0": list(column_values), "other": [f"o{k}" for k in range(len(column_values))]})
+        src = "c0"
+        if labels == "int":      # a header-less frame: integer labels, the source is column 1, 0 is another column
+            df = pd.DataFrame({0: [f"o{k}" for k in range(len(column_values))], 1: list(column_values), 2: ["z"] * len(column_values)})
+            src = 1
+        elif labels == "empty":  # the empty string is a legal label too
+            df = pd.DataFrame({"": [f"o{k}" for k in range(len(column_values))], "c0": list(column_values)})
         before = df.copy(deep=True)
         fn = getattr(c, "pd_" + kind)
         kw = {"strict": s, "passthrough": p}
@@ -1022,24 +1028,27 @@ def check_c16(tier, seed):
             kw["ambiguous"] = amb
         try:
             if kind in ("compress", "expand"):
-                fn(df, "c0", target_column=target, **kw)
+                fn(df, src, target_column=target, **kw)
             else:
-                fn(df, column="c0", target_column=target, **kw)
+                fn(df, column=src, target_column=target, **kw)
             out = ["ok"]
         except Exception as e:  # noqa: BLE001
             out = ["raise", impl.fam(e), type(e).__name__]
         call = {"conv": ci, "kind": kind, "amb": bool(amb), "s": s, "p": p, "col": [I(x) for x in column_values], "out": out,
                 "unchanged": bool(df.equals(before)), "result": [], "others_same": True}
         if out[0] == "ok":
-            tc = target or "c0"
+            tc = src if target is None else target
             res = []
             for v in df[tc].tolist():
                 res.append(["none"] if v is None or (isinstance(v, float) and v != v) or pd.isna(v) else (["val", I(v)] if isinstance(v, str) else ["weird"]))
             call["result"] = res
+            if tc not in df.columns:
+                call["out"] = ["raise", "other", "target column missing"]
+                tc = src
             keep = [col for col in before.columns if col != tc]
             call["others_same"] = bool(df[keep].equals(before[keep])) and list(df.index) == list(before.index)
         traces[-1]["pd"].append(call)
-        metas[-1].setdefault("pd", []).append({"op": "pd_" + kind, "ambiguous": amb, "strict": s, "passthrough": p, "target": target,
+        metas[-1].setdefault("pd", []).append({"op": "pd_" + kind, "ambiguous": amb, "strict": s, "passthrough": p, "target": target, "labels": labels,
                                               "column": list(column_values), "out": out})
 
     cm = {1: "go", 2: "GO", 3: "http://obo.org/", 58: ":"}
@@ -1088,7 +1097,9 @@ def check_c16(tier, seed):
         colvals = [rng.choice(pool) for _ in range(rng.randrange(1, 6))]
         for k2 in (kind, rng.choice(["standardize_prefix", "standardize_curie", "standardize_uri"])):
             vals = colvals if k2 in ("compress", "expand") else colvals + ["GO", "go", "nope"]
-            pd_op(ci, k2, amb, rng.random() < 0.3, rng.random() < 0.5, vals, rng.choice([None, "new"]))
+            lab = rng.choice(["str", "str", "int", "empty"])
+            tgt = {"str": [None, "new"], "int": [None, 0, 2, 5], "empty": [None, "", "new"]}[lab]
+            pd_op(ci, k2, amb, rng.random() < 0.3, rng.random() < 0.5, vals, rng.choice(tgt), lab)
     shutil.rmtree(tdir, ignore_errors=True)
     batch = {"strs": I.table(), "convs": convs, "traces": traces}
     fails, rejected, stv = validate_bulk(batch, 1200 if quick else 3400)
